@@ -95,6 +95,15 @@ Theorem c16_none : forall msg : list N, none_encrypt msg = msg /\ none_decrypt (
 Proof. intros msg; split; reflexivity. Qed.
 Print Assumptions c16_none.
 
+(* modelling step made explicit: the uint64 load / xor / store that encrypt8 and decrypt8
+   perform through unsafe.Pointer equals the bytewise block xor used by the model, for
+   either byte order of the machine *)
+Theorem c16_u64_xor_is_bytewise : forall s t : list N,
+  length s = 8 -> length t = 8 -> Forall is_byte s -> Forall is_byte t ->
+  xor_u64_le s t = xorl s t /\ xor_u64_be s t = xorl s t.
+Proof. exact u64_xor_bytewise. Qed.
+Print Assumptions c16_u64_xor_is_bytewise.
+
 (* non-vacuity: a concrete block function, a 20-byte IV, a 150-byte message (8-byte blocks:
    two strides + 2 tail blocks + 6 remainder bytes; 16-byte blocks: one stride + 1 tail
    block + 6 bytes), dirty scratch buffers; hypotheses hold and the model computes *)
